@@ -188,6 +188,41 @@ Proof.
   exact (with_scalar_copy_refines ct h0 l a c d k sp s Hl Hc Ha Hd Hflat Hdnc Hni Hfa Hty Hnc Hinit Ha0 v r s' Hv Hp H).
 Qed.
 
+(* ... and the copy-on-write call does succeed whenever the specification is SOk
+   (class without __post_copy__ hook): no spurious error, in particular no
+   FrozenInstanceError on a frozen receiver *)
+Theorem C05_copy_total_partial : forall ct h0 l a c d k sp s v x,
+  nth_error (heap s) l = Some (OInst c d) -> lookup_cls ct c = Some k -> lookup_attr k a = Some sp ->
+  flat_fields (heap s) d -> c_dnc k = false -> no_inval k -> fail_at s = None ->
+  ty_depth (a_ty sp) < FUEL -> ty_is_collection (a_ty sp) = false ->
+  assoc A_INITIALIZING d = None ->
+  vscalar v = true ->
+  match a_prepare sp with Some f => scalar_fn f = true | None => True end ->
+  c_post_copy k = None ->
+  spec_helper ct h0 (absv (heap s) (VRef l)) (SWith a)
+              (mkah [abs0 v] false true AMissing false None None [] None) = SOk x ->
+  exists r s', run_helper ct l (HWith a) (mkh [v] false true VMissing false None None [] None) s = (Ok r, s').
+Proof.
+  intros ct h0 l a c d k sp s v x Hl Hc Ha Hflat Hdnc Hni Hfa Hty Hnc Hinit Hv Hp Hpc Hs.
+  exact (with_scalar_copy_total ct h0 l a c d k sp s Hl Hc Ha Hflat Hdnc Hni Hfa Hty Hnc Hinit v x Hv Hp Hpc Hs).
+Qed.
+
+(* update_<a>(v) with a proper scalar v IS with_<a>(v): the same run of the model
+   and the same specification, for both values of _inplace — so every theorem
+   above about with_<a>(scalar) holds verbatim for update_<a>(scalar) *)
+Theorem C05_update_scalar_is_with : forall ct h0 l a c d k sp s v inp,
+  nth_error (heap s) l = Some (OInst c d) -> lookup_cls ct c = Some k -> lookup_attr k a = Some sp ->
+  vscalar v = true ->
+  run_helper ct l (HUpdate a) (mkh [v] inp true VMissing false None None [] None) s =
+  run_helper ct l (HWith a) (mkh [v] inp true VMissing false None None [] None) s /\
+  spec_helper ct h0 (absv (heap s) (VRef l)) (SUpdate a) (mkah [abs0 v] inp true AMissing false None None [] None) =
+  spec_helper ct h0 (absv (heap s) (VRef l)) (SWith a) (mkah [abs0 v] inp true AMissing false None None [] None).
+Proof.
+  intros ct h0 l a c d k sp s v inp Hl Hc Ha Hv. split.
+  - exact (update_scalar_model ct l a c d k sp s Hl Hc Ha v inp Hv).
+  - exact (update_scalar_spec ct h0 l a c d k sp s Hl Hc Ha v inp Hv).
+Qed.
+
 (* copy-run vs in-place-run: deepcopy of a flat instance is abstractly the instance *)
 Theorem C05_deepcopy_preserves_abs_flat : forall ct l s c d k r s' n,
   nth_error (heap s) l = Some (OInst c d) -> lookup_cls ct c = Some k -> c_dnc k = false ->
@@ -243,6 +278,8 @@ Print Assumptions C05_update_is_iterated_with.
 Print Assumptions C05_refines_partial.
 Print Assumptions C05_setattr_refines_partial.
 Print Assumptions C05_refines_copy_partial.
+Print Assumptions C05_copy_total_partial.
+Print Assumptions C05_update_scalar_is_with.
 Print Assumptions C05_deepcopy_preserves_abs_flat.
 Print Assumptions C05_acyclic_fields_independent.
 Print Assumptions C05_examples.
